@@ -1,17 +1,21 @@
 (* main.ml — reads the harness's `I <id> <tokens>` lines on stdin and prints the model's
-   expectation `E <id> <tokens>` for each. *)
+   expectations, one `E <id> <tokens>` line per observation the harness printed. *)
 let () =
   let engine = if Array.length Sys.argv > 1 then Sys.argv.(1) else "" in
-  let exec = match engine with
-    | "codec" -> Eng_codec.exec
-    | _ -> prerr_endline ("unknown engine " ^ engine); exit 2 in
+  let exec = match Stdlib.List.assoc_opt engine Engines.table with
+    | Some f -> f
+    | None -> prerr_endline ("unknown engine " ^ engine); exit 2 in
   (try
     while true do
       let line = input_line stdin in
-      match String.split_on_char ' ' line with
+      match Stdlib.String.split_on_char ' ' line with
       | "I" :: id :: toks ->
-          let r = (try exec toks with Stack_overflow -> "model-stack-overflow" | Failure m -> "model-failure " ^ m) in
-          print_string "E "; print_string id; print_char ' '; print_endline r
+          let rs = (try exec toks with Stack_overflow -> ["model-stack-overflow"] | Failure m -> ["model-failure " ^ m]
+                                     | Not_found -> ["model-not-found"] | Invalid_argument m -> ["model-invalid-arg " ^ m]) in
+          Stdlib.List.iter (fun r ->
+            if Stdlib.String.length r > 2 && Stdlib.String.sub r 0 2 = "S " then
+              (print_string "S "; print_string id; print_char ' '; print_endline (Stdlib.String.sub r 2 (Stdlib.String.length r - 2)))
+            else (print_string "E "; print_string id; print_char ' '; print_endline r)) rs
       | _ -> ()
     done
   with End_of_file -> ())
